@@ -2,7 +2,7 @@
 from lib import *
 
 OPS = ["tt", "decompress_all", "decompress_sel", "cp_to_tt", "transpose", "clone", "numpy",
-       "orthogonalize", "left_orthogonalize", "right_orthogonalize",
+       "orthogonalize", "left_orthogonalize", "right_orthogonalize", "factor_orthogonalize", "as_leaf",
        "round_tt", "round_tucker", "round", "tn_round_tt", "tn_round_tucker", "tn_round"]
 EXACT = {"tt", "decompress_all", "decompress_sel", "cp_to_tt", "transpose", "clone", "numpy"}
 
@@ -146,6 +146,8 @@ class Prop:
                 add(tj, op, dim=sorted(rng.sample(range(N), rng.randint(0, N))), dd=dd)
         elif op == "orthogonalize":
             add(tj, op, mu=rng.randint(-N, N - 1), dd=dd)
+        elif op == "factor_orthogonalize":
+            add(tj, op, mu=rng.randint(0, N - 1), dd=dd)
         elif op in ("left_orthogonalize", "right_orthogonalize"):
             if N >= 2:        # the single-core steps, called directly on whatever format the tensor is in
                 add(tj, op, mu=rng.randint(0, N - 2) if op[0] == "l" else rng.randint(1, N - 1), dd=dd)
@@ -164,8 +166,10 @@ class Prop:
         if op == "numpy": return t
         if op == "orthogonalize":
             r = t.clone(); r.orthogonalize(case["mu"]); return r
-        if op in ("left_orthogonalize", "right_orthogonalize"):
+        if op in ("left_orthogonalize", "right_orthogonalize", "factor_orthogonalize"):
             r = t.clone(); getattr(r, op)(case["mu"]); return r
+        if op == "as_leaf":
+            r = t.clone(); r.as_leaf(); return r
         if op in ("round_tt", "round_tucker", "round"):
             r = t.clone(); getattr(r, op)(); return r
         if op == "tn_round_tt": return tn.round_tt(t)
